@@ -321,6 +321,20 @@ def run(ctx):
                       "CONTINUE under %s" % sorted(((k, p) for k, p in g if isinstance(k, str) and "param:" in k), key=str))
         else:
             ctx.check(c == "STOP" and not (low and rate), "swap_free:otherwise-STOP", "return_table", sf.loc(r), "otherwise STOP", "%s under %s" % (c, sorted(g, key=str)))
+            # ... and a STOP is the documented predicate being false: it sits behind the negation of one of the two conjuncts, or behind a test
+            # that does not read the sample at all (no swap configured).  An extra exit that looks at the used/free amount or the swap-out
+            # rate decides the verdict by something other than the documented comparison.
+            LOW_S = re.compile(LOW.pattern[1:-1])
+            RATE_GE = re.compile(r"\(%s\.swapout_bps >= this->swapout_bps_threshold_\)" % SYS)
+            # (the else-branch of `if (low && rate)` carries the whole conjunction with polarity False)
+            neg = any(LOW_S.search(k) and p is False for k, p in g if isinstance(k, str)) or any(RATE.match(k) and p is True for k, p in g if isinstance(k, str)) \
+                or any(RATE_GE.search(k) and p is False for k, p in g if isinstance(k, str))
+            if c == "STOP":
+                reads = sorted({k for k, p in g if isinstance(k, str) and re.search(r"\.(swapused|swapout_bps)\b", k)})
+                ctx.check(neg or not reads, "swap_free:verdict-only-by-the-documented-comparison", "return_table", sf.loc(r),
+                          "a STOP outside the documented comparison does not depend on the sampled usage",
+                          "STOP is returned under %s, which reads the sample but is not the negation of 'free < total * pct / 100' or of the swap-out "
+                          "test: samples the documented predicate holds for (e.g. swap exactly full) are answered STOP" % "; ".join(reads)[:300])
     ctx.check(n_low >= 1, "swap_free:threshold", "value-shape", sf.loc(), "threshold = total * pct / 100 is what free swap is compared with", "swap_free has no CONTINUE return")
     # ------------------------------------------------ exists
     ex = ctx.fn1("Oomd::Exists::run")
